@@ -20,11 +20,9 @@ import (
 	"errors"
 	"fmt"
 	"reflect"
-	"runtime/debug"
 	"strings"
 
 	"github.com/cloudwego/eino/internal/generic"
-	"github.com/cloudwego/eino/internal/safe"
 	"github.com/cloudwego/eino/schema"
 )
 
@@ -695,7 +693,10 @@ func fieldMap(mappings []*FieldMapping, allowMapKeyNotFound bool) func(any) (map
 						return nil, err
 					}
 
-					panic(safe.NewPanicErr(err, debug.Stack()))
+					// what is left can only be met while walking a value whose declared type is an interface:
+					// the output of a predecessor with an interface output type (accepted at compile time when
+					// the same mapping set also holds a ToField mapping). A request time error as well.
+					return nil, err
 				}
 
 				if i < len(fromPath)-1 {
